@@ -481,6 +481,13 @@ func (r *Run) Summary() string {
 	for _, e := range r.Inconclusive {
 		fmt.Fprintf(&sb, "  INCONCLUSIVE: %s\n", e)
 	}
+	byMsg := map[string]int{}
+	for _, v := range r.Violations {
+		byMsg[v.Msg]++
+	}
+	for m, c := range byMsg {
+		fmt.Fprintf(&sb, "  CEX-GROUP x%d: %s\n", c, m)
+	}
 	for i, v := range r.Violations {
 		if i >= 6 {
 			fmt.Fprintf(&sb, "  ... %d more counterexamples\n", len(r.Violations)-i)
